@@ -280,8 +280,9 @@ fn parse_word(w: &str) -> W {
     } else if w == "!" {
         W::Tight
     } else if let Some(n) = w.strip_prefix("i:") {
-        assert!(valid_written_name(n), "bad file name {n}");
-        W::Input(n.to_string())
+        let n = decode_name(n);
+        assert!(valid_written_name(&n), "bad file name {n}");
+        W::Input(n)
     } else if let Some(n) = w.strip_prefix("m:") {
         W::Call(n.chars().next().expect("macro letter"))
     } else if let Some(n) = w.strip_prefix('\\') {
@@ -298,7 +299,37 @@ fn parse_word(w: &str) -> W {
 /// none starting with a dot (areas, `./`, `//`, hidden files are outside this harness).
 fn valid_written_name(n: &str) -> bool {
     !n.is_empty()
-        && n.split('/').all(|c| !c.is_empty() && !c.starts_with('.') && c.chars().all(|x| x.is_ascii_alphabetic() || x == '.'))
+        && n.split('/').all(|c| !c.is_empty() && !c.starts_with('.') && c.chars().all(|x| x.is_ascii_alphabetic() || x == '.' || x == ':' || x == '>' || (x as u32) > 127))
+}
+
+/// Case strings are ASCII: in a file name every character other than an ASCII letter, `.` and
+/// `/` is written `(hex code point)`: `(e4)b.tex` is `äb.tex`, `gr(f6)(df)e`, `(1d11e)`,
+/// `e(301)` (combining acute), `(3a)` the area delimiter `:`. Inside the harness, on the
+/// disk and in the TeX source, names are the real characters.
+fn decode_name(a: &str) -> String {
+    let mut out = String::new();
+    let mut it = a.chars();
+    while let Some(c) = it.next() {
+        if c == '(' {
+            let hex: String = it.by_ref().take_while(|x| *x != ')').collect();
+            out.push(char::from_u32(u32::from_str_radix(&hex, 16).expect("hex code point")).expect("code point"));
+        } else {
+            out.push(c);
+        }
+    }
+    out
+}
+
+fn encode_name(n: &str) -> String {
+    let mut out = String::new();
+    for c in n.chars() {
+        if c.is_ascii_alphabetic() || c == '.' || c == '/' || c == '=' {
+            out.push(c);
+        } else {
+            out.push_str(&format!("({:x})", c as u32));
+        }
+    }
+    out
 }
 
 /// The literal file name of a file section: `f:a` is `a.tex`, `F:x` (stored as `=x`) is `x`.
@@ -311,8 +342,8 @@ fn literal_name(name: &str) -> String {
 
 fn file_label(name: &str) -> String {
     match name.strip_prefix('=') {
-        Some(l) => format!("F:{l}"),
-        None => format!("f:{name}"),
+        Some(l) => format!("F:{}", encode_name(l)),
+        None => format!("f:{}", encode_name(name)),
     }
 }
 
@@ -353,7 +384,7 @@ impl Resolver {
         } else {
             let codes: Vec<u32> = w.chars().map(|c| c as u32).collect();
             let reply = drv.ask(&format!("rs {mode} {}", join(&codes)));
-            parse_i64s(&reply).into_iter().map(|c| c as u8 as char).collect()
+            parse_i64s(&reply).into_iter().map(|c| char::from_u32(c as u32).expect("code point")).collect()
         };
         self.0.insert((mode, w.to_string()), r.clone());
         r
@@ -363,6 +394,11 @@ impl Resolver {
         written
             .iter()
             .map(|w| {
+                // areas (`area:name`, `area>name`) are not supported by the code: the documented
+                // outcome is the error of a file that cannot be read; the model has no areas
+                if w.contains(':') || w.contains('>') {
+                    return None;
+                }
                 let lit = self.resolve(mode, w, drv);
                 files.iter().position(|f| literal_name(&f.name) == lit)
             })
@@ -377,7 +413,7 @@ fn show_word(w: &W) -> String {
         W::Bg => "{".into(),
         W::Eg => "}".into(),
         W::Cs(n) => format!("\\{}", cs_name(*n)),
-        W::Input(n) => format!("i:{n}"),
+        W::Input(n) => format!("i:{}", encode_name(n)),
         W::End => "e".into(),
         W::Call(c) => format!("m:{c}"),
         W::Comment => "%".into(),
@@ -601,6 +637,7 @@ fn parse_file_section(label: &str, content: &str) -> Option<SrcFile> {
     };
     let nl = !l.ends_with('-');
     let l = if l.ends_with(['+', '-']) { &l[..l.len() - 1] } else { l };
+    let l = &decode_name(l);
     assert!(valid_written_name(l), "bad file name {l}");
     let name = if lit { format!("={l}") } else { l.to_string() };
     Some(SrcFile { name, nl, lines: split_lines(content) }.canon())
@@ -843,8 +880,9 @@ fn parse_rop(w: &str) -> ROp {
     let num = |s: &str| -> i64 { s.parse().unwrap_or_else(|_| panic!("bad stream number {s:?}")) };
     if let Some(r) = w.strip_prefix('o') {
         let (n, f) = r.split_once(':').expect("o<n>:<file>");
-        assert!(valid_written_name(f), "bad file name {f}");
-        ROp::Open(num(n), f.to_string())
+        let f = decode_name(f);
+        assert!(valid_written_name(&f), "bad file name {f}");
+        ROp::Open(num(n), f)
     } else if let Some(r) = w.strip_prefix('c') {
         ROp::Close(num(r))
     } else if let Some(r) = w.strip_prefix('r') {
@@ -872,7 +910,7 @@ fn parse_rop(w: &str) -> ROp {
 
 fn show_rop(o: &ROp) -> String {
     match o {
-        ROp::Open(n, f) => format!("o{n}:{f}"),
+        ROp::Open(n, f) => format!("o{n}:{}", encode_name(f)),
         ROp::Close(n) => format!("c{n}"),
         ROp::Read(n, x) => format!("r{n}:{x}"),
         ROp::GRead(n, x) => format!("R{n}:{x}"),
@@ -1057,10 +1095,21 @@ impl<'a> TreeGen<'a> {
         if n >= 26 {
             s.push((b'a' + (n / 26 % 26) as u8) as char);
         }
+        // multi-byte characters anywhere in the name (2-, 3- and 4-byte, a combining mark)
+        if self.r.chance(1, 4) {
+            let extra = ["\u{e4}", "\u{df}", "\u{e9}", "\u{20ac}", "\u{1d11e}", "e\u{301}", "\u{f6}\u{df}"];
+            let x = *self.r.pick(&extra);
+            s = match self.r.below(3) {
+                0 => format!("{x}{s}"),
+                1 => format!("{s}{x}"),
+                _ => x.to_string() + &s + x,
+            };
+        }
         // directory-qualified names, also with a dot in the directory
         match self.r.below(16) {
             0 | 1 => format!("s/{s}"),
             2 => format!("d.d/{s}"),
+            3 => format!("\u{fc}.\u{20ac}/{s}"),
             _ => s,
         }
     }
@@ -1391,7 +1440,16 @@ fn gen_rd(r: &mut Rng, wide: bool) -> RdCase {
                 }
             }
         }
-        files.push(SrcFile { name: ((b'a' + k as u8) as char).to_string(), nl: r.chance(2, 3), lines }.canon());
+        let mut name = ((b'a' + k as u8) as char).to_string();
+        if r.chance(1, 4) {
+            name = match r.below(4) {
+                0 => format!("\u{fc}{name}"),
+                1 => format!("{name}\u{df}\u{20ac}"),
+                2 => format!("\u{1d11e}/{name}\u{e9}"),
+                _ => format!("e\u{301}.d/{name}"),
+            };
+        }
+        files.push(SrcFile { name, nl: r.chance(2, 3), lines }.canon());
     }
     let nterm = *r.pick(&[0u64, 1, 3, 6, 10, 14, 20]);
     let term: Vec<Vec<W>> = (0..nterm).map(|_| normalize(&gen_rd_line(r), false)).collect();
@@ -1524,7 +1582,7 @@ impl C19 {
             let req = c.request(&written, b);
             let reply = drv.ask(&req);
             let parts: Vec<String> = reply.split('|').map(|s| s.trim().to_string()).collect();
-            if parts.len() != 5 {
+            if parts.len() != 6 {
                 panic!("driver reply malformed: {reply} (request {req})");
             }
             parts
@@ -1547,6 +1605,10 @@ TeX: {b_tex:?}"));
         for w in &written {
             let dots = w.rsplit('/').next().unwrap().matches('.').count();
             out.tag(format!("name:{}{}{}", if w.contains('/') { "dir/" } else { "" }, match dots { 0 => "bare", 1 => "one-dot", _ => "several-dots" }, if w.ends_with('.') { "-trailing" } else { "" }));
+            if !w.is_ascii() {
+                let before_dot = w.rfind('.').map(|j| !w[..j].is_ascii()).unwrap_or(false);
+                out.tag(if before_dot { "name:multi-byte-before-a-dot" } else { "name:multi-byte" });
+            }
         }
         {
             let lits: Vec<String> = c.files.iter().map(|f| literal_name(&f.name)).collect();
@@ -1668,6 +1730,11 @@ TeX: {b_tex:?}"));
         if wf && (m_status != 0 || m_toks != s_lex) {
             out.fail(Kind::ModelVsSpec, "in", "in: model differs from inlining", format!("model: {m_status} {m_toks:?}\ninline: {s_lex:?}"));
         }
+        // theorem endinput_is_tex_on_truncated_program: TeX on the program with the rest of every
+        // \endinput line deleted is the code's inlining (which the run is compared with)
+        if parse_i64s(&parts[5]) != s_lex {
+            out.fail(Kind::ModelVsSpec, "in", "in: TeX on the truncated program differs from the code's inlining", format!("{:?}\n{s_lex:?}", parts[5]));
+        }
         if end_last && s_lex != s_tex {
             out.fail(Kind::ModelVsSpec, "in", "in: inlinings differ although every \\endinput ends its line", format!("{s_lex:?}\n{s_tex:?}"));
         }
@@ -1762,6 +1829,10 @@ TeX: {b_tex:?}"));
         for w in &written {
             let dots = w.rsplit('/').next().unwrap().matches('.').count();
             out.tag(format!("name:{}{}{}", if w.contains('/') { "dir/" } else { "" }, match dots { 0 => "bare", 1 => "one-dot", _ => "several-dots" }, if w.ends_with('.') { "-trailing" } else { "" }));
+            if !w.is_ascii() {
+                let before_dot = w.rfind('.').map(|j| !w[..j].is_ascii()).unwrap_or(false);
+                out.tag(if before_dot { "name:multi-byte-before-a-dot" } else { "name:multi-byte" });
+            }
         }
         {
             let lits: Vec<String> = c.files.iter().map(|f| literal_name(&f.name)).collect();
@@ -2016,16 +2087,28 @@ impl Property for C19 {
                 }
             }
         }
-        // ---- exhaustive: which file a written name denotes
-        {
-            let disk: &[&str] = &[
-                "a", "a.tex", "a.tex.tex", "a.TEX", "a.", "a.dat", "a.tex.dat", "a.dat.tex", "d/a", "d/a.tex", "d/a.tex.tex", "d.d/a", "d.d/a.tex",
-                "d.d/a.b", "d.d/a.b.tex", "d.tex", "a.b.c", "a.c", "a.b.c.tex",
-            ];
-            let written: &[&str] = &["a", "a.tex", "a.tex.tex", "a.TEX", "a.", "a.dat", "a.tex.dat", "d/a", "d/a.tex", "d.d/a", "d.d/a.b", "d.d/a.", "a.b.c", "a.b."];
-            for w in written {
+        // ---- exhaustive: which file a written name denotes (ASCII and multi-byte characters
+        // in every position: before / after dots, in directories)
+        for (bn, dn) in [("a", "d"), ("\u{e4}", "\u{fc}"), ("gr\u{f6}\u{df}e", "d"), ("\u{1d11e}", "\u{20ac}"), ("e\u{301}b", "\u{e9}")] {
+            let fill = |t: &str| -> String { t.replace("{B}", bn).replace("{D}", dn) };
+            let disk: Vec<String> = [
+                "{B}", "{B}.tex", "{B}.tex.tex", "{B}.TEX", "{B}.", "{B}.dat", "{B}.tex.dat", "{B}.dat.tex", "{D}/{B}", "{D}/{B}.tex", "{D}/{B}.tex.tex", "{D}.{D}/{B}",
+                "{D}.{D}/{B}.tex", "{D}.{D}/{B}.b", "{D}.{D}/{B}.b.tex", "{D}.tex", "{B}.b.c", "{B}.c", "{B}.b.c.tex", "{B}..tex", "{B}.{B}", "{B}.{B}.tex",
+            ]
+            .iter()
+            .map(|t| fill(t))
+            .collect();
+            let written: Vec<String> = [
+                "{B}", "{B}.tex", "{B}.tex.tex", "{B}.TEX", "{B}.", "{B}.dat", "{B}.tex.dat", "{D}/{B}", "{D}/{B}.tex", "{D}.{D}/{B}", "{D}.{D}/{B}.b", "{D}.{D}/{B}.", "{B}.b.c",
+                "{B}.b.", "{B}.{B}",
+            ]
+            .iter()
+            .map(|t| fill(t))
+            .collect();
+            for w in &written {
                 // generation only: the file TeX means (the verdict is Lean's)
                 let target = if w.rsplit('/').next().unwrap().contains('.') { w.to_string() } else { format!("{w}.tex") };
+                let we = encode_name(w);
                 for variant in 0..3 {
                     let mut secs = vec![];
                     let mut lines_of = vec![];
@@ -2037,13 +2120,14 @@ impl Property for C19 {
                         };
                         if keep {
                             let c = (b'A' + k as u8) as char;
-                            secs.push(format!("F:{l}+: {c} /"));
-                            lines_of.push(format!("F:{l}+: {c} / {c} {c} /"));
+                            let le = encode_name(l);
+                            secs.push(format!("F:{le}+: {c} /"));
+                            lines_of.push(format!("F:{le}+: {c} / {c} {c} /"));
                         }
                     }
-                    v.push(format!("in main+: Y i:{w} Z / ; {}", secs.join(" ; ")));
-                    v.push(format!("in main+: m:a / ; m:a: Y i:{w} Z ; {}", secs.join(" ; ")));
-                    v.push(format!("rd {} ; t: ; ops: ?2 o2:{w} ?2 r2:a u:a ?2 r2:b u:b ?2", lines_of.join(" ; ")));
+                    v.push(format!("in main+: Y i:{we} Z / ; {}", secs.join(" ; ")));
+                    v.push(format!("in main+: m:a / ; m:a: Y i:{we} Z ; {}", secs.join(" ; ")));
+                    v.push(format!("rd {} ; t: ; ops: ?2 o2:{we} ?2 r2:a u:a ?2 r2:b u:b ?2", lines_of.join(" ; ")));
                 }
             }
         }
